@@ -14,7 +14,7 @@ import (
 
 // versionTable is the evaluated roomVersionMeta literal.
 type versionTable struct {
-	versions []string                  // in source order
+	versions []string                     // in source order
 	rows     map[string]map[string]fw.Val // version -> field -> value
 	rowPos   map[string]string
 	fields   []string // fields of RoomVersionImpl, declaration order
